@@ -649,8 +649,32 @@ def c20(pid, tier, work, replay):
         ["Stop is only issued while a loop runs and Wait only after a loop ended (outside that the calls block by design)"])
 
 
+def c15(pid, tier, work, replay):
+    s = C.seed()
+    C.build(("real", "node"))
+    vip = os.path.join(C.BIN, "vipnode")
+    runs = [("c15-pool", "vipreal", ["hostilepool", vip, str(s), str(sized(tier, 1, 6)), "@TRACE", "@STATUS"], "x"),
+            ("c15-agent", "vipreal", ["hostileagent", vip, "@WORK", str(s), "@TRACE", "@STATUS"], "x")]
+    if tier != "quick":
+        for i in range(3):
+            runs.append(("c15-pool-%d" % i, "vipreal", ["hostilepool", vip, str(s + 100 + i), "6", "@TRACE", "@STATUS"], "x"))
+    return event_check(
+        pid, tier, work, "VipHostile", "VipHostile.cfg", [], runs,
+        "the complete message-shape table of VipHostile (json class x method class x id kind x params shape x reply members = 533 shapes, each with "
+        "seeded random fillings: unicode, huge strings and numbers, deep nesting, odd enode strings) sent to the built `vipnode pool` binary over "
+        "WebSocket and as HTTP bodies while a second connection keeps calling vipnode_ping; ~570 structurally valid requests with hostile values "
+        "(10 signature forms x 10 identity forms per signed endpoint; correctly signed requests with unparseable / foreign / huge node URIs, short "
+        "enode strings, 5000 peers, counts from -2^31 to 2^30, odd wallets) with and without a minimum balance; a registered host answering the "
+        "pool's whitelist call in 10 hostile ways while an honest client waits; the built `vipnode agent` binary connected to a hostile pool in "
+        "12 modes; distinct = shapes / request classes",
+        ["byte strings inside each shape class are sampled, not enumerated (level: exploration driven by an exhaustive model-derived table)",
+         "an error reply that also carries `result: null` counts as well-formed (the library always adds it)"],
+        exhaustive=False)
+
+
 CHECKS = {
     "C10": c10,
+    "C15": c15,
     "C18": c18,
     "C20": c20,
     "C16": c16,
